@@ -2437,7 +2437,29 @@ class arm_sp(arm_reg):
     reg_info = gpregs_sp
     parser = reg_info.parser
 
+class armt_shift_off5(arm_imm):
+    # Thumb LSRS / ASRS (immediate): an encoded amount of 0 means 32
+
+    def decode(self, v):
+        v = v & self.lmask
+        if v == 0 and self.parent.name in ('LSRS', 'ASRS'):
+            v = 32
+        self.expr = ExprInt(v, 32)
+        return True
+
+    def encode(self):
+        if not isinstance(self.expr, ExprInt):
+            return False
+        v = int(self.expr)
+        if v == 32 and self.parent.name in ('LSRS', 'ASRS'):
+            v = 0
+        elif not 0 <= v < 32:
+            return False
+        self.value = v
+        return True
+
 off5 = bs(l=5, cls=(arm_imm,), fname="off")
+shift_off5 = bs(l=5, cls=(armt_shift_off5,), fname="off")
 off3 = bs(l=3, cls=(arm_imm,), fname="off")
 off8 = bs(l=8, cls=(arm_imm,), fname="off")
 off7 = bs(l=7, cls=(arm_off7,), fname="off")
@@ -2539,7 +2561,7 @@ br_name = {'BEQ': 0, 'BNE': 1, 'BCS': 2, 'BCC': 3, 'BMI': 4,
 bs_br_name = bs_name(l=4, name=br_name)
 
 
-armtop("mshift", [bs('000'), bs_mshift_name, off5, rsl, rdl], [rdl, rsl, off5])
+armtop("mshift", [bs('000'), bs_mshift_name, shift_off5, rsl, rdl], [rdl, rsl, shift_off5])
 armtop("addsubr", [bs('000110'),  bs_addsub_name, rnl, rsl, rdl], [rdl, rsl, rnl])
 armtop("addsubi", [bs('000111'),  bs_addsub_name, off3, rsl, rdl], [rdl, rsl, off3])
 armtop("mcas", [bs('001'), bs_mov_cmp_add_sub_name, rnl, off8])
@@ -2617,6 +2639,9 @@ class armt_gpreg_rm_shift_off(arm_reg):
 
         i = int(self.parent.imm5_3.value) << 2
         i |= int(self.parent.imm5_2.value)
+        if i == 0 and self.parent.stype.value in (1, 2):
+            # LSR #32 / ASR #32 are encoded with imm5 = 0
+            i = 32
 
         if self.parent.stype.value < 3 or i != 0:
             shift = allshifts_armt[self.parent.stype.value]
@@ -2650,6 +2675,10 @@ class armt_gpreg_rm_shift_off(arm_reg):
             self.parent.stype.value = 3
             return True
         self.parent.stype.value = allshifts_armt.index(shift)
+        if i == 32 and self.parent.stype.value in (1, 2):
+            i = 0
+        elif not 0 <= i < 32:
+            return False
         self.parent.imm5_2.value = i & 3
         self.parent.imm5_3.value = i >> 2
         return True
